@@ -125,7 +125,9 @@ int effectiveLimit(const Delivery& d) {
 
 size_t g_frameMax = 0;  // stack bytes per nesting level, calibrated per build (C15)
 
-OneResult runOne(RK kind, const Delivery& d, const std::string& wire, Transcript* t) {
+// deferReadAfterEnd: the caller judges the returned code first (an input accepted although it ends too early is the
+// more telling report) and raises the read-after-end finding itself afterwards
+OneResult runOne(RK kind, const Delivery& d, const std::string& wire, Transcript* t, bool deferReadAfterEnd = false) {
   OneResult r;
   SimAllocator alloc(7, nullptr);
   SimAllocator falloc(8, nullptr);
@@ -184,7 +186,7 @@ OneResult runOne(RK kind, const Delivery& d, const std::string& wire, Transcript
       violate("C03:unknown-code", "deserialize returned an undocumented code: " + r.code);
     if (r.rs.handedOut > r.rs.available)
       violate("C03:overread", "the reader handed out more bytes than the input holds");
-    if (r.rs.callsAfterEnd)
+    if (r.rs.callsAfterEnd && !deferReadAfterEnd)
       violate("C03:read-after-end", std::to_string(r.rs.callsAfterEnd) +
                                         " call(s) to the reader after it had reported the end of input (kind " +
                                         rkName(kind) + ")");
@@ -449,11 +451,17 @@ void deliverToKinds(const Op& op, const Delivery& d, const std::string& wire, Ct
       dk.chunks.clear();
     if (!(k == RK::Custom || k == RK::AStream))
       dk.shortAt = SIZE_MAX;
-    OneResult r = runOne(k, dk, wire, cx.t);
+    OneResult r = runOne(k, dk, wire, cx.t, true);
+    auto readAfterEnd = [&] {
+      if (r.rs.callsAfterEnd)
+        violate("C03:read-after-end", std::to_string(r.rs.callsAfterEnd) +
+                                          " call(s) to the reader after it had reported the end of input (kind " + rkName(k) + ")");
+    };
     count("xfer.deliveries");
     if (r.faultsFired) {
       count("fault.alloc_fired", r.faultsFired);
       count(r.code == "NoMemory" ? "c05.failed_cleanly" : "c05.absorbed_or_other");
+      readAfterEnd();
       continue;  // results under random allocation failures are judged for safety only (runOne)
     }
     count((std::string("kind.") + rkName(k)).c_str());
@@ -464,9 +472,11 @@ void deliverToKinds(const Op& op, const Delivery& d, const std::string& wire, Ct
       // byte-wise, a stall there is an end of input and a number may legitimately be complete.)
       if (d.msgpack && r.code == "Ok")
         violate("C03:short-read-accepted", "a short readBytes() went unnoticed");
+      readAfterEnd();
       continue;
     }
     checkExpectation(op, dk, visibleBytes(k, wire), r, k);
+    readAfterEnd();
     std::string vis = visibleBytes(k, wire);
     auto it = ref.find(vis);
     if (it == ref.end()) {
